@@ -59,16 +59,33 @@ def miri_stage(c):
         return
     t0 = time.time()
     harness = os.path.join(c["root"], "harness")
-    rc, out = _run(["cargo", "+nightly", "miri", "run", "--offline", "--", "smoke", "12", "2", "12"], harness,
-                   {"MIRIFLAGS": "-Zmiri-disable-isolation", "RUSTFLAGS": "--cfg rscel_verif"}, 3000)
-    line = [l for l in out.splitlines() if l.startswith("SMOKE ")]
-    rec = {"ran": bool(line), "exit": rc, "wall_s": round(time.time() - t0, 1), "observed": line[0] if line else None,
-           "undefined_behaviour_reports": out.count("Undefined Behavior"), "data_race_reports": out.count("Data race detected")}
-    if not line:
-        rec["skipped_reason"] = out[-400:]
+    env = {"MIRIFLAGS": "-Zmiri-disable-isolation", "RUSTFLAGS": "--cfg rscel_verif"}
+    # slice 0 alone first (it also builds the interpreter's sysroot and the harness), then the other slices in parallel
+    nslices = 8
+    rc, out = _run(["cargo", "+nightly", "miri", "run", "--offline", "--", "smoke", "12", "2", "12", "0"], harness, env, 3000)
+    outs = [(rc, out)]
+    if rc == 0:
+        import subprocess
+        e2 = dict(os.environ)
+        e2.update(env)
+        procs = [subprocess.Popen(["cargo", "+nightly", "miri", "run", "--offline", "--", "smoke", "12", "2", "12", str(k)], cwd=harness, env=e2,
+                                  stdout=subprocess.PIPE, stderr=subprocess.STDOUT, text=True) for k in range(1, nslices)]
+        for p in procs:
+            try:
+                o, _ = p.communicate(timeout=3000)
+                outs.append((p.returncode, o))
+            except subprocess.TimeoutExpired:
+                p.kill()
+                outs.append((-9, "timeout"))
+    allout = "\n".join(o for _, o in outs)
+    lines = [l for l in allout.splitlines() if l.startswith("SMOKE ")]
+    rec = {"ran": bool(lines), "processes": len(outs), "exits": [r for r, _ in outs], "wall_s": round(time.time() - t0, 1), "observed": lines,
+           "undefined_behaviour_reports": allout.count("Undefined Behavior"), "data_race_reports": allout.count("Data race detected")}
+    if not lines:
+        rec["skipped_reason"] = allout[-400:]
     c["extra_cov"]["miri"] = rec
     if rec["undefined_behaviour_reports"] or rec["data_race_reports"]:
-        c["notes"].append({"t": "note", "kind": "SANITIZER-NOTE", "text": "Miri: " + out[-1500:]})
+        c["notes"].append({"t": "note", "kind": "SANITIZER-NOTE", "text": "Miri: " + allout[-1500:]})
 
 
 def asan_stage(c):
